@@ -225,6 +225,19 @@ def _is_write_mode(mode):
     return any(c in mode for c in "wax+")
 
 
+class SimHang(BaseException):
+    """Bounded liveness: the code under test blocked on something that never completes in the simulated world (opening a
+    FIFO nobody else has open).  A BaseException on purpose: the repository's `except Exception` handlers must not turn a
+    hang into an ordinary per-file failure."""
+
+
+def _would_block_forever(path):
+    try:
+        return statmod.S_ISFIFO(_o["lstat"](path).st_mode)
+    except (OSError, KeyError, TypeError, ValueError):
+        return False
+
+
 def sim_open(file, mode="r", *args, **kwargs):
     fs = FS
     if fs is None or not fs.active or isinstance(file, int):
@@ -232,6 +245,9 @@ def sim_open(file, mode="r", *args, **kwargs):
     zpath, zone = fs.zone(file)
     if zpath is None:
         return real_open(file, mode, *args, **kwargs)
+    if _would_block_forever(file):
+        _event("hang", zpath, mode, path=file)
+        raise SimHang(f"open({zpath!r}, {mode!r}) on a FIFO blocks forever")
     if _is_write_mode(mode):
         before = None
         try:
@@ -276,6 +292,9 @@ def sim_os_open(path, flags, mode=0o777, *, dir_fd=None):
     zpath, zone = fs.zone(path)
     if zpath is None:
         return _o["open"](path, flags, mode, dir_fd=dir_fd)
+    if _would_block_forever(path) and not flags & os.O_NONBLOCK:
+        _event("hang", zpath, path=path)
+        raise SimHang(f"os.open({zpath!r}) on a FIFO blocks forever")
     if flags & (os.O_WRONLY | os.O_RDWR | os.O_CREAT | os.O_TRUNC | os.O_APPEND):
         _event("os-open-write", zpath, mutating=True, path=path)
     else:
